@@ -979,6 +979,427 @@ func c20CompSearch(t *testing.T, r *rep.Report, deadline time.Time, k *int64) {
 }
 
 // ---------------------------------------------------------------------------
+// histories over TWO instances
+//
+// A pool holds several instances at a time (one per concurrent message), and
+// instances that were closed and put back are used next to instances created
+// later. Every history of operations on two slots (0 and 1) is enumerated; the
+// operations of the two slots are interleaved in every way (Reset and the reads
+// that follow are separate operations), and whatever an instance decodes /
+// encodes is compared with ITS OWN input: nothing done to one instance may show
+// in the other.
+//
+// Decompressor operations per slot:
+//
+//	V Reset(valid)+read all   S Reset(valid) only   D read all (checked when a Reset(valid) is pending, else a few Reads)
+//	C Reset(corrupt)+read all X Close               P Close + Reset(http.NoBody) (pool put)
+//
+// Compressor operations per slot: B Reset(new buffer), W Write(own data), X Close (segment checked), D Reset(io.Discard).
+//
+// Instance 0 is created at the start; instance 1 either at the start too or at
+// its first operation (the way sync.Pool.New creates one when the pool is
+// empty). The oracle phase that follows every history is itself interleaved:
+// 0S 1S 0D 1D (0B 1B 0W 1W 0X 1X for compressors).
+
+var c20PDKinds = []string{"V", "S", "D", "C", "X", "P"}
+var c20PCKinds = []string{"B", "W", "X", "D"}
+
+type c20PStep struct {
+	Op    string `json:"op"`
+	Err   string `json:"err,omitempty"`
+	N     int    `json:"n"`
+	Same  bool   `json:"same_as_own_input,omitempty"`
+	Other bool   `json:"same_as_input_of_other_instance,omitempty"`
+	Panic string `json:"panic,omitempty"`
+}
+
+type c20PCase struct {
+	Side    string     `json:"side"` // "decompressor-pair" | "compressor-pair"
+	Encs    [2]string  `json:"encs"`
+	Inputs  [2]string  `json:"inputs"`
+	Lazy    bool       `json:"second_instance_created_at_first_use"`
+	History []string   `json:"history"` // "<slot><operation>"
+	Steps   []c20PStep `json:"observed,omitempty"`
+}
+
+func c20PairOps(kinds []string) []string {
+	var out []string
+	for slot := 0; slot < 2; slot++ {
+		for _, k := range kinds {
+			out = append(out, fmt.Sprint(slot)+k)
+		}
+	}
+	return out
+}
+
+// runPair replays hist (then the interleaved oracle phase) on two decompressor instances.
+func (rn *c20DRunner) runPair(encs [2]c20Enc, ins [2]c20Input, valid, corrupt [2][]byte, lazy bool, hist []string, wantSteps bool) (steps []c20PStep, verdicts []c20Verdict, classes []string) {
+	var d [2]connect.Decompressor
+	var anyReset, pending [2]bool
+	create := func(i int) bool {
+		if p := c20Guard(func() {
+			var err error
+			d[i], err = GetDecompressor(encs[i].Enum)
+			if err != nil {
+				panic(err)
+			}
+		}); p != "" {
+			verdicts = append(verdicts, c20Verdict{Key: "panic:" + encs[i].Name, Detail: "GetDecompressor: " + p})
+			return false
+		}
+		return true
+	}
+	defer func() {
+		for i := range d {
+			if d[i] != nil {
+				c20Guard(func() { _ = d[i].Close() })
+			}
+		}
+	}()
+	if !create(0) || (!lazy && !create(1)) {
+		return steps, verdicts, classes
+	}
+	ops := append(append([]string{}, hist...), "0S", "1S", "0D", "1D")
+	for n, op := range ops {
+		i, k := int(op[0]-'0'), op[1:]
+		if d[i] == nil && !create(i) {
+			return steps, verdicts, classes
+		}
+		where := fmt.Sprintf("step %d (%s) after [%s]", n, op, strings.Join(ops[:n], " "))
+		var st c20PStep
+		reset := func(src io.Reader) {
+			anyReset[i] = true
+			st.Err = ""
+			if p := c20Guard(func() { st.Err = c20ErrStr(d[i].Reset(src)) }); p != "" {
+				st.Panic = p
+				verdicts = append(verdicts, c20Verdict{Key: "panic:" + encs[i].Name, Step: n, Detail: where + ": Reset panicked: " + p})
+			}
+		}
+		readAll := func(check bool) {
+			rn.out.Reset()
+			var err error
+			if p := c20Guard(func() { err = c20ReadAll(d[i], &rn.out, rn.scratch) }); p != "" {
+				st.Panic = p
+				verdicts = append(verdicts, c20Verdict{Key: "panic:" + encs[i].Name, Step: n, Detail: where + ": Read panicked: " + p})
+				return
+			}
+			st.Err, st.N = c20ErrStr(err), rn.out.Len()
+			st.Same = bytes.Equal(rn.out.Bytes(), ins[i].Data)
+			st.Other = !st.Same && bytes.Equal(rn.out.Bytes(), ins[1-i].Data)
+			if check && (err != nil || !st.Same) {
+				what := ""
+				if st.Other {
+					what = fmt.Sprintf(" — these are the %d bytes of input %q, which was given to the OTHER instance", len(ins[1-i].Data), ins[1-i].Name)
+				}
+				verdicts = append(verdicts, c20Verdict{Key: "two-instances:decode-wrong:" + encs[i].Name, Step: n, Reuse: true, Detail: fmt.Sprintf(
+					"%s: instance %d (%s) was Reset to the valid %s stream of its input %q; read-all gave err=%q n=%d identical=%v%s; want the %d original bytes and no error",
+					where, i, encs[i].Name, encs[i].Name, ins[i].Name, st.Err, st.N, st.Same, what, len(ins[i].Data))})
+			}
+		}
+		switch k {
+		case "V", "S":
+			reset(c20Reader("buffer", valid[i]))
+			pending[i] = st.Panic == "" && st.Err == ""
+			if st.Panic == "" && st.Err != "" {
+				verdicts = append(verdicts, c20Verdict{Key: "two-instances:decode-wrong:" + encs[i].Name, Step: n, Reuse: true, Detail: fmt.Sprintf(
+					"%s: Reset of instance %d to the valid %s stream of input %q failed: %s", where, i, encs[i].Name, ins[i].Name, st.Err)})
+			}
+			if k == "V" && pending[i] {
+				readAll(true)
+				pending[i] = false
+			}
+		case "D":
+			if pending[i] {
+				readAll(true)
+				pending[i] = false
+				break
+			}
+			st.Panic = c20Guard(func() {
+				var small [64]byte
+				for j := 0; j < 4; j++ {
+					m, err := d[i].Read(small[:])
+					st.N += m
+					if err != nil {
+						st.Err = err.Error()
+						break
+					}
+				}
+			})
+			if st.Panic != "" {
+				if anyReset[i] {
+					verdicts = append(verdicts, c20Verdict{Key: "panic-in-read:" + encs[i].Name, Step: n, Detail: where + ": Read panicked: " + st.Panic})
+				} else {
+					classes = append(classes, "decompressor:read-before-first-reset-panics:"+encs[i].Name)
+				}
+			}
+		case "C":
+			reset(c20Reader("buffer", corrupt[i]))
+			pending[i] = false
+			if st.Panic == "" && st.Err == "" {
+				readAll(false)
+			}
+		case "X", "P":
+			pending[i] = false
+			if p := c20Guard(func() { st.Err = c20ErrStr(d[i].Close()) }); p != "" {
+				st.Panic = p
+				if anyReset[i] {
+					verdicts = append(verdicts, c20Verdict{Key: "panic-in-close:" + encs[i].Name, Step: n, Detail: where + ": Close panicked: " + p})
+				} else {
+					classes = append(classes, "decompressor:close-before-first-reset-panics:"+encs[i].Name)
+				}
+			}
+			if k == "P" {
+				reset(http.NoBody)
+			}
+		default:
+			panic("bad pair op " + op)
+		}
+		if wantSteps {
+			st.Op = op
+			if n >= len(hist) {
+				st.Op = "oracle:" + op
+			}
+			steps = append(steps, st)
+		}
+	}
+	return steps, verdicts, classes
+}
+
+// c20RunCompPair replays hist (then the interleaved oracle phase) on two compressor instances.
+func c20RunCompPair(encs [2]c20Enc, ins [2]c20Input, lazy bool, hist []string, wantSteps bool) (steps []c20PStep, verdicts []c20Verdict, classes []string) {
+	var c [2]connect.Compressor
+	var anyReset [2]bool
+	var sink [2]*bytes.Buffer
+	var segWrites [2]int
+	create := func(i int) bool {
+		if p := c20Guard(func() {
+			var err error
+			c[i], err = GetCompressor(encs[i].Enum)
+			if err != nil {
+				panic(err)
+			}
+		}); p != "" {
+			verdicts = append(verdicts, c20Verdict{Key: "panic:" + encs[i].Name, Detail: "GetCompressor: " + p})
+			return false
+		}
+		return true
+	}
+	if !create(0) || (!lazy && !create(1)) {
+		return steps, verdicts, classes
+	}
+	ops := append(append([]string{}, hist...), "0B", "1B", "0W", "1W", "0X", "1X")
+	for n, op := range ops {
+		i, k := int(op[0]-'0'), op[1:]
+		if c[i] == nil && !create(i) {
+			return steps, verdicts, classes
+		}
+		where := fmt.Sprintf("step %d (%s) after [%s]", n, op, strings.Join(ops[:n], " "))
+		fail := func(what string) {
+			verdicts = append(verdicts, c20Verdict{Key: "two-instances:encode-wrong:" + encs[i].Name, Step: n, Reuse: true, Detail: where + ": " + what})
+		}
+		var st c20PStep
+		switch k {
+		case "B", "D":
+			var w io.Writer = io.Discard
+			var nb *bytes.Buffer
+			if k == "B" {
+				nb = &bytes.Buffer{}
+				w = nb
+			}
+			anyReset[i] = true
+			if st.Panic = c20Guard(func() { c[i].Reset(w) }); st.Panic != "" {
+				verdicts = append(verdicts, c20Verdict{Key: "panic:" + encs[i].Name, Step: n, Detail: where + ": Reset panicked: " + st.Panic})
+				nb = nil
+			}
+			sink[i], segWrites[i] = nb, 0
+		case "W":
+			var m int
+			var err error
+			st.Panic = c20Guard(func() { m, err = c[i].Write(ins[i].Data) })
+			st.Err, st.N = c20ErrStr(err), m
+			switch {
+			case st.Panic != "" && anyReset[i]:
+				verdicts = append(verdicts, c20Verdict{Key: "panic:" + encs[i].Name, Step: n, Detail: where + ": Write panicked: " + st.Panic})
+				sink[i] = nil
+			case st.Panic != "":
+				classes = append(classes, "compressor:write-before-first-reset-panics:"+encs[i].Name)
+			case sink[i] != nil && (err != nil || m != len(ins[i].Data)):
+				fail(fmt.Sprintf("Write of %d bytes to instance %d, freshly Reset on a bytes.Buffer, returned n=%d err=%v", len(ins[i].Data), i, m, err))
+				sink[i] = nil
+			case sink[i] != nil:
+				segWrites[i]++
+			}
+		case "X":
+			var err error
+			st.Panic = c20Guard(func() { err = c[i].Close() })
+			st.Err = c20ErrStr(err)
+			switch {
+			case st.Panic != "" && anyReset[i]:
+				verdicts = append(verdicts, c20Verdict{Key: "panic:" + encs[i].Name, Step: n, Detail: where + ": Close panicked: " + st.Panic})
+			case st.Panic != "":
+				classes = append(classes, "compressor:close-before-first-reset-panics:"+encs[i].Name)
+			case sink[i] != nil && err != nil:
+				fail(fmt.Sprintf("Close of instance %d on a bytes.Buffer sink returned %v", i, err))
+			case sink[i] != nil:
+				want := bytes.Repeat(ins[i].Data, segWrites[i])
+				got, derr := c20IndepDecode(encs[i].Name, sink[i].Bytes())
+				st.N, st.Same = sink[i].Len(), derr == nil && bytes.Equal(got, want)
+				if !st.Same {
+					fail(fmt.Sprintf("the %d bytes instance %d (%s) emitted for %d writes of its input %q, decoded by an independent %s decoder: err=%v, %d bytes, identical=false; want the %d original bytes",
+						sink[i].Len(), i, encs[i].Name, segWrites[i], ins[i].Name, encs[i].Name, derr, len(got), len(want)))
+				}
+			}
+			sink[i] = nil
+		default:
+			panic("bad pair op " + op)
+		}
+		if wantSteps {
+			st.Op = op
+			if n >= len(hist) {
+				st.Op = "oracle:" + op
+			}
+			steps = append(steps, st)
+		}
+	}
+	return steps, verdicts, classes
+}
+
+type c20PairSetup struct {
+	encs   [2]c20Enc
+	ins    [2]c20Input
+	maxLen int
+}
+
+// c20PairSetups: same-encoding pairs get the longer histories and two input
+// assignments, pairs of different encodings the shorter ones.
+func c20PairSetups(compressorSide bool) []c20PairSetup {
+	byName := map[string]c20Input{}
+	for _, in := range c20Inputs(false) {
+		byName[in.Name] = in
+	}
+	sameLen, diffLen := 3, 2
+	if compressorSide {
+		sameLen, diffLen = 2, 1
+	}
+	if rep.Thorough() {
+		sameLen, diffLen = sameLen+1, diffLen+1
+	}
+	var out []c20PairSetup
+	for _, a := range c20Encs() {
+		for _, names := range [][2]string{{"ab300", "bytes256"}, {"empty", "a"}, {"a", "lcg64k"}} {
+			if names[1] == "lcg64k" && !rep.Thorough() {
+				continue
+			}
+			out = append(out, c20PairSetup{[2]c20Enc{a, a}, [2]c20Input{byName[names[0]], byName[names[1]]}, sameLen})
+		}
+	}
+	for _, a := range c20Encs() {
+		for _, b := range c20Encs() {
+			if a.Name != b.Name {
+				out = append(out, c20PairSetup{[2]c20Enc{a, b}, [2]c20Input{byName["ab300"], byName["bytes256"]}, diffLen})
+			}
+		}
+	}
+	return out
+}
+
+func c20PairStreams(t *testing.T, su c20PairSetup) (valid, corrupt [2][]byte) {
+	for i := 0; i < 2; i++ {
+		v, err := c20IndepEncode(su.encs[i].Name, su.ins[i].Data)
+		if err != nil {
+			t.Fatalf("independent encoder %s: %v", su.encs[i].Name, err)
+		}
+		valid[i] = v
+		corrupt[i] = append([]byte{}, v[:len(v)/2]...) // a truncated stream
+		if len(v) > 0 {
+			flipped := append([]byte{}, v...)
+			flipped[len(v)/2] ^= 0x10
+			if i == 1 {
+				corrupt[i] = flipped // the other instance gets a bit flip instead
+			}
+		}
+	}
+	return valid, corrupt
+}
+
+func c20PairName(su c20PairSetup) [2]string { return [2]string{su.encs[0].Name, su.encs[1].Name} }
+
+func c20PairSearch(t *testing.T, r *rep.Report, deadline time.Time, k *int64) {
+	rn := &c20DRunner{scratch: make([]byte, 32*1024)}
+	var mine int64
+	for _, side := range []string{"decompressor-pair", "compressor-pair"} {
+		comp := side == "compressor-pair"
+		kinds := c20PDKinds
+		if comp {
+			kinds = c20PCKinds
+		}
+		ops := c20PairOps(kinds)
+		for _, su := range c20PairSetups(comp) {
+			valid, corrupt := c20PairStreams(t, su)
+			run := func(lazy bool, h []string, steps bool) ([]c20PStep, []c20Verdict, []string) {
+				if comp {
+					return c20RunCompPair(su.encs, su.ins, lazy, h, steps)
+				}
+				return rn.runPair(su.encs, su.ins, valid, corrupt, lazy, h, steps)
+			}
+			for l := 0; l <= su.maxLen; l++ {
+				for _, h := range c20Seqs(ops, l) {
+					for _, lazy := range []bool{true, false} {
+						*k++
+						if !r.Mine(*k) {
+							continue
+						}
+						mine++
+						if mine%64 == 0 && !deadline.IsZero() && time.Now().After(deadline) {
+							r.NotExhaustive(fmt.Sprintf("budget reached in %s histories at encs=%v length=%d", side, c20PairName(su), l))
+							return
+						}
+						_, verdicts, classes := run(lazy, h, false)
+						r.Eval(1)
+						r.Count(side+"-histories", 1)
+						r.Count(fmt.Sprintf("%s-histories-len%d", side, l), 1)
+						r.NonTrivial("")
+						for _, c := range classes {
+							r.Outcome(c)
+						}
+						if len(verdicts) == 0 {
+							r.Outcome(side + ":ok")
+						}
+						if *k%50021 == 1 {
+							r.Sample(c20PCase{Side: side, Encs: c20PairName(su), Inputs: [2]string{su.ins[0].Name, su.ins[1].Name}, Lazy: lazy, History: h})
+						}
+						for _, v := range verdicts {
+							hh := h
+							if v.Reuse {
+								// the shortest sub-history after which an instance still returns something else than its own input
+								c20Subseqs(len(h), func(idx []int) bool {
+									sub := make([]string, len(idx))
+									for i, j := range idx {
+										sub[i] = h[j]
+									}
+									_, vs, _ := run(lazy, sub, false)
+									for _, x := range vs {
+										if x.Reuse {
+											hh = sub
+											return true
+										}
+									}
+									return false
+								})
+							}
+							r.Outcome(side + ":" + v.Key)
+							r.Violate(v.Key, fmt.Sprintf("%s encs=%v inputs=[%s %s] second instance created at first use=%v history=[%s] (shortest failing sub-history: [%s]): %s",
+								side, c20PairName(su), su.ins[0].Name, su.ins[1].Name, lazy, strings.Join(h, " "), strings.Join(hh, " "), v.Detail),
+								c20PCase{Side: side, Encs: c20PairName(su), Inputs: [2]string{su.ins[0].Name, su.ins[1].Name}, Lazy: lazy, History: hh})
+						}
+					}
+				}
+			}
+		}
+	}
+}
+
+// ---------------------------------------------------------------------------
 
 func c20Replay(t *testing.T, r *rep.Report, data []byte) {
 	var file struct {
@@ -1057,6 +1478,32 @@ func c20Replay(t *testing.T, r *rep.Report, data []byte) {
 		if len(verdicts) == 0 {
 			fmt.Println("replay: no violation observed")
 		}
+	case "decompressor-pair", "compressor-pair":
+		var c c20PCase
+		if err := json.Unmarshal(file.Replay, &c); err != nil {
+			t.Fatalf("replay: %v", err)
+		}
+		su := c20PairSetup{encs: [2]c20Enc{findEnc(c.Encs[0]), findEnc(c.Encs[1])}, ins: [2]c20Input{findIn(c.Inputs[0], false), findIn(c.Inputs[1], false)}}
+		valid, corrupt := c20PairStreams(t, su)
+		var steps []c20PStep
+		var verdicts []c20Verdict
+		if c.Side == "compressor-pair" {
+			steps, verdicts, _ = c20RunCompPair(su.encs, su.ins, c.Lazy, c.History, true)
+		} else {
+			rn := &c20DRunner{scratch: make([]byte, 32*1024)}
+			steps, verdicts, _ = rn.runPair(su.encs, su.ins, valid, corrupt, c.Lazy, c.History, true)
+		}
+		c.Steps = steps
+		out, _ := json.MarshalIndent(c, "", " ")
+		fmt.Printf("C20 replay:\n%s\n", out)
+		r.Eval(1)
+		for _, v := range verdicts {
+			fmt.Printf("STILL FAILS: %s: %s\n", v.Key, v.Detail)
+			r.Violate(v.Key, fmt.Sprintf("%s encs=%v history=[%s]: %s", c.Side, c.Encs, strings.Join(c.History, " "), v.Detail), c)
+		}
+		if len(verdicts) == 0 {
+			fmt.Println("replay: no violation observed")
+		}
 	default:
 		t.Fatalf("replay: unknown side %q", side.Side)
 	}
@@ -1071,6 +1518,7 @@ func TestVerifC20Hist(t *testing.T) {
 		"corrupt = every single-bit flip and every proper prefix of the valid stream for the two short inputs (fixed set of 14 cuts + 18 flips for the longer ones); histories with one C take every corruption; " +
 		"histories with several C take the diagonal (same corruption at every C) plus the full product of class representatives (one corruption per distinct fresh-instance behaviour); thorough additionally takes the full product of all corruptions for two C up to length 3 (source as *bytes.Buffer). " +
 		"Compressor operations: B Reset(new buffer), D Reset(io.Discard), F Reset(failing sink), W Write(data), X Close; every closed segment on a good sink and the final Reset+Write+Close are decoded by a fresh decoder of the underlying library. " +
+		"Two instances: every history (same encoding: length <=3 quick / <=4 thorough; two different encodings: <=2 / <=3; compressors one shorter) over the operations of two decompressors {V, S Reset(valid) only, D read all, C, X, P} / two compressors {B, W, X, D} in every interleaving, second instance created at the start or at its first use, followed by the interleaved oracle 0S 1S 0D 1D / 0B 1B 0W 1W 0X 1X: each instance must return / emit its own input. " +
 		"A history counts as non-trivial when it contains at least one operation other than a valid decode (decompressor) / at least one operation (compressor); histories are distinct by construction."
 	if data := rep.ReplayInput(); data != nil {
 		c20Replay(t, r, data)
@@ -1083,9 +1531,12 @@ func TestVerifC20Hist(t *testing.T) {
 	var k int64
 	c20CompSearch(t, r, deadline, &k)
 	kc := k
+	c20PairSearch(t, r, deadline, &k)
+	kp := k
 	c20DecompSearch(t, r, deadline, &k)
 	if r.Exhaustive {
 		r.Extra["enumeration_size_compressor_histories"] = kc
-		r.Extra["enumeration_size_decompressor_histories"] = k - kc
+		r.Extra["enumeration_size_two_instance_histories"] = kp - kc
+		r.Extra["enumeration_size_decompressor_histories"] = k - kp
 	}
 }
